@@ -276,6 +276,38 @@ def run(ctx):
         for l in got:
             if l not in full:
                 ctx.fail('PauliPolynomial.reduce', 'a term appeared from nowhere', dict(terms=terms, string=l))
+    # histories: objects handed out by the library are changed in place by the caller; later arithmetic must not notice
+    for _ in range(ctx.budget(40, 400)):
+        n = rng.choice([1, 2, 3])
+        c0 = complex(rng.choice([0.5, -3, 2j, 0.25]))
+        ident = pc.pauli_identity(n)
+        if rng.random() < 0.5:
+            ident.set_cs(np.array([c0]))
+        else:
+            ident.cs *= c0
+        z = pc.pauli_zero(n)
+        terms = [(G.rand_op(rng, n), complex(rng.choice(COEF))) for _ in range(2)]
+        r0 = impl.poly(terms) + impl.poly(terms[:1])
+        for a_ in (r0.cs, r0.gs):   # mutate a result in place
+            if a_.size:
+                a_.flat[0] = a_.flat[0] + 1
+        c = complex(rng.choice(COEF))
+        d1 = sum(cc * O.dense(o) for o, cc in terms) + c * np.eye(2 ** n)
+        checks = [('PauliPolynomial.__add__', lambda: impl.poly(terms) + c), ('PauliPolynomial.__radd__', lambda: c + impl.poly(terms)),
+                  ('PauliPolynomial.__sub__', lambda: impl.poly(terms) - (-c))]
+        for site, f in checks:
+            try:
+                cm = coefmap(f(), impl)
+                got = sum(v * O.dense((l, 0)) for l, v in cm.items()) if cm else np.zeros_like(d1)
+                if not np.allclose(got, d1):
+                    ctx.fail(site, 'after an identity polynomial / an earlier result was modified in place by the caller, adding a number no longer adds that multiple of the identity',
+                             dict(terms=terms, c=str(c), got=str(cm)[:300]))
+            except Exception as e:
+                ctx.fail(site, 'implementation raised %r' % e, dict(terms=terms))
+        fresh = coefmap(pc.pauli_identity(n), impl)
+        if fresh != {tuple('I' * n): 1.0}:
+            ctx.fail('pauli_identity', 'identity polynomial is not the identity after an earlier one was modified in place', dict(N=n, got=str(fresh)))
+        ctx.case(('inplace-history', n, str(terms), c), True, sample=dict(op='history: mutate handed-out objects, then add a number', N=n))
     # adding a plain number adds that multiple of the identity
     for _ in range(ctx.budget(30, 300)):
         n = rng.choice([1, 2, 3])
